@@ -152,9 +152,10 @@ Definition trx_first_opt (l : layout) (d : dir) (lchan : option Z) (fn : Z) : bo
 Definition trx_owns_opt (l : layout) (d : dir) (lchan : option Z) (fn : Z) : bool :=
   match lchan with Some c => trx_owns l d c fn | None => false end.
 
-(* number of bursts of one block of a logical channel: single-burst channels, TCH/H (2 per 4-frame step), all others 4 *)
+(* number of bursts of one block of a logical channel: single-burst channels, TCH/H (2 per 4-frame step), all others 4.
+   IDLE frames belong to no channel (no handler, no channel state); their bid column is not constrained. *)
 Definition lchan_nbursts (c : Z) : Z :=
-  if (c =? tx_L1SCHED_IDLE) || (c =? tx_L1SCHED_FCCH) || (c =? tx_L1SCHED_SCH) || (c =? tx_L1SCHED_RACH) then 1
+  if (c =? tx_L1SCHED_FCCH) || (c =? tx_L1SCHED_SCH) || (c =? tx_L1SCHED_RACH) then 1
   else if (c =? tx_L1SCHED_TCHH_0) || (c =? tx_L1SCHED_TCHH_1) then 2
   else 4.
 
@@ -267,8 +268,24 @@ Definition chk_row_kinds (r : row) : bool :=
   | Tch => fw_rows_within (r_task r) [(K_TCH, 0); (K_TCH_A, fw_MF_F_SACCH); (K_TCH_D, 0)]
   end.
 
+(* both mappings repeat with this cycle (51-multiframe channels: 2 x 51, 26-multiframe channels: 4 x 26); the sweeps run over
+   one cycle per row, chk_cycle is what allows Proofs/MframeP.v to extend them to every frame number *)
+Definition row_cycle (r : row) : Z := match r_mode r with Block => 102 | _ => 104 end.
+
+Definition mods_divide (C : Z) (items : list (Z*Z*Z*Z)) : bool :=
+  forallb (fun it : Z*Z*Z*Z => let '(_, m, _, _) := it in (0 <? m) && (C mod m =? 0)) items.
+
+Definition chk_cycle (r : row) (tn : Z) : bool :=
+  match row_layout r tn, nth_error fw_sched (Z.to_nat (r_task r)) with
+  | Some L, Some (Some items) => (0 <? ly_period L) && (row_cycle r mod ly_period L =? 0) && mods_divide (row_cycle r) items
+  | _, _ => false
+  end.
+
 Definition chk_row (r : row) (tn cur : Z) : bool :=
   negb (tn_ok (r_tn r) tn) || (if is_tch (r_mode r) then chk_tch r tn cur else chk_block r tn cur).
+
+Definition chk_row_tn (r : row) (tn : Z) : bool :=
+  (negb (tn_ok (r_tn r) tn) || chk_cycle r tn) && forallb (fun cur => chk_row r tn cur) (range 0 (row_cycle r)).
 
 (* the channel number both stacks report for the row: mframe_task2chan_nr(task, tn) = desc[lchan].chan_nr | tn,
    link id 0 for the main channel and L1SCHED_CH_LID_SACCH for its SACCH *)
@@ -295,6 +312,7 @@ Definition chk_bid_at (l : layout) (d : dir) (i : Z) : bool :=
   | FrOk fr =>
       let c := fr_chan d fr in
       let n := lchan_nbursts c in
+      (c =? tx_L1SCHED_IDLE) ||
       (0 <=? fr_bid d fr) && (fr_bid d fr <? n) &&
       match first_same l d c i 1 (Z.to_nat (ly_period l)) with
       | Some k => match trx_frame l (i + k) with FrOk fr' => fr_bid d fr' =? (fr_bid d fr + 1) mod n | _ => false end
@@ -341,9 +359,10 @@ Definition pairs {A B} (la : list A) (lb : list B) : list (A * B) := flat_map (f
 
 Definition find_bad_row (fnmax : Z) : option (Z * Z * Z) :=
   let idx := combine (map Z.of_nat (seq 0 (length c11_rows))) c11_rows in
-  match find (fun x : (Z * row) * Z => negb (forallb (fun cur => chk_row (snd (fst x)) (snd x) cur) (range 0 fnmax))) (pairs idx (range 0 8)) with
+  let top (r : row) := if fnmax <=? 0 then row_cycle r else fnmax in
+  match find (fun x : (Z * row) * Z => negb (forallb (fun cur => chk_row (snd (fst x)) (snd x) cur) (range 0 (top (snd (fst x)))))) (pairs idx (range 0 8)) with
   | Some ((ri, r), tn) =>
-      match find (fun cur => negb (chk_row r tn cur)) (range 0 fnmax) with Some cur => Some (ri, tn, cur) | None => None end
+      match find (fun cur => negb (chk_row r tn cur)) (range 0 (top r)) with Some cur => Some (ri, tn, cur) | None => None end
   | None => None
   end.
 
@@ -378,7 +397,7 @@ Definition w_c11_trx_layout (a : list Z) : list Z :=
   | _ => [-999]
   end.
 
-(* [fnmax] -> first (row index, tn, cur) that breaks the block-start / frame-by-frame agreement, [] if none *)
+(* [fnmax] (0: one cycle per row) -> first (row index, tn, cur) that breaks the block-start / frame-by-frame agreement, [] if none *)
 Definition w_c11_find_bad (a : list Z) : list Z :=
   match a with
   | [fnmax] => match find_bad_row fnmax with Some (ri, tn, cur) => [ri; tn; cur] | None => [] end
